@@ -197,8 +197,15 @@ def cargo_check(cdir, target_dir):
         errs.append({'code': code, 'lines': sorted(lines), 'msg': m.get('message', '')[:200]})
     return r.returncode == 0, errs, r.stderr[-1500:]
 
-def gen_pos_defs(rng, n, dynamic_kw):
+def gen_pos_defs(rng, n, dynamic_kw, full=False):
     out = []
+    if full:
+        # the four generated shapes x context mode, each with every hook kind at both levels (deterministic)
+        for asy in (False, True):
+            for pay in (False, True):
+                for conc in (False, True):
+                    out.append(T.full_def(asy, pay, conc, dynamic=dynamic_kw.get('dynamic', True)))
+        n += len(out)
     k = 0
     while len(out) < n:
         combo = k
@@ -257,7 +264,7 @@ def run(tier, seed, work, repo, ill_suspects=None):
                ('feature', True, False, {'dynamic': False}), ('typestate', False, True, {'dynamic': False})]
     jobs = []
     for cname, feature, nostd, dkw in configs:
-        ds = gen_pos_defs(rng, cfg['pos'] // len(configs) + 1, dkw)
+        ds = gen_pos_defs(rng, cfg['pos'] // len(configs) + 1, dkw, full=True)
         items = [(f'{cname}{i}', feature, d) for i, d in enumerate(ds)]
         infos = T.get_infos(items)
         mods = []
